@@ -202,10 +202,12 @@ func tryGenC05(r *rand.Rand, k int, history bool) *c05Scen {
 		pre = append(pre, fmt.Sprintf("var a: %s = %s", T, a.src()), fmt.Sprintf("acct.storage.save(a, to: /storage/v%d)", k))
 		emit("var b = acct.storage.copy<%s>(from: /storage/v%d)!", T, k)
 		tempExpr = fmt.Sprintf("acct.storage.copy<%s>(from: /storage/v%d)!", T, k)
+		sideB = r.IntN(3) != 0
 		storedSide = !sideB
 	case "save-load":
 		pre = append(pre, fmt.Sprintf("var a: %s = %s", T, a.src()), fmt.Sprintf("acct.storage.save(a, to: /storage/v%d)", k), fmt.Sprintf("acct.storage.save(a, to: /storage/w%d)", k))
 		emit("var b = acct.storage.load<%s>(from: /storage/v%d)!", T, k)
+		sideB = r.IntN(3) != 0
 		storedSide = !sideB
 	case "contract-stash-tx":
 		pre = append(pre, fmt.Sprintf("let a: %s = %s", T, a.src()), fmt.Sprintf("C5.put(\"s%d\", a)", k))
